@@ -45,6 +45,7 @@ def known(ctx, key):
 
 
 XDRIVER, X_MODEL_FIXED = None, True
+POOLS = None
 
 
 def parse_flow(a):
@@ -112,7 +113,7 @@ def run(ctx):
         "the per-node encoder is a function of (encoder context, node): the only assumption of the parametric theorems. For the transcribed encoders it is PROVED (Model/EncWbxml.v: context = tagCodePage, attrCodePage, current_tag - frame over the string table, CDATA balance; Model/EncXml.v: context = indent, in_content, current_tag - CDATA balance); that the transcriptions are wbxml_encoder.c is tied by the harness after every operation of every history, not proved",
         "where the API is silent: delete_last_node removes the last node encoded with encode_node AND every raw start/end fragment encoded after it; before any node it removes everything; twice in a row the second is a no-op",
         "histories use detached nodes (encode_node on a node with a next sibling also encodes the siblings); nodes are encodable (token tags; a failing encode leaves partial output and is outside the property's domain: such histories are counted and skipped)",
-        "batch = wbxml_encoder_encode_tree_to_wbxml/_to_xml of a tree whose root-level sibling chain is the remaining nodes, flow mode off, string table disabled, same charset; computed only when the remaining fragments are nodes (no raw start/end) and pairwise distinct",
+        "batch = wbxml_encoder_encode_tree_to_wbxml/_to_xml of a tree whose root-level sibling chain is the remaining nodes, flow mode off, string table disabled, same charset; computed when the remaining fragments are pairwise distinct nodes and brackets 'raw start ; ONE detached text node ; raw end', a bracket standing for that element with the text as its only child (the text right after a start tag is judged by current_tag in flow mode and in a tree alike; later children are not comparable: a detached node has no parent pointer); not for indented XML",
     ]
     bad = common.forbidden_scan()
     cres = common.coq_property(PID)
@@ -121,6 +122,8 @@ def run(ctx):
 
     tables = gen.tables_json()
     pools = c17lib.Pools(tables)
+    global POOLS
+    POOLS = pools
     vocab = c18lib.Vocab(tables)
     tfile = os.path.join(common.BUILD, "c18_tables-%s.txt" % common.repo_hash())
     common.write_if_changed(tfile, vocab.tables_file())
@@ -281,6 +284,50 @@ def expected_events(pools, lang, pool, frags):
     return out
 
 
+def batch_plan(l, h):
+    """the tree whose batch encoding the live fragments l must equal: (pool spec, root indices, uses brackets) or None.
+    Nodes stand for themselves (pairwise distinct objects).  A bracket  S<i>,1 ; N<j> ; F<i>,1  with pool[j] a text node
+    stands for the element pool[i] (tag and attributes) with that text as its ONLY child - the one shape for which a
+    detached node encoded after a raw start must come out exactly as in a tree: the text right after the start tag is
+    judged by current_tag in both (later children are not: a detached node has no parent pointer, the tree's has).
+    Not for indented XML (the layout looks at the children of the node given to the raw start)."""
+    specs = h["pool"].split("/")
+    extra, idx, k, used = [], [], 0, False
+    while k < len(l):
+        o = l[k]
+        if o[0] == "N":
+            idx.append(o[1:])
+            k += 1
+        elif o[0] == "S" and o.endswith(",1") and k + 2 < len(l) and l[k + 1][0] == "N" and l[k + 2] == "F" + o[1:]:
+            i, j = int(o[1:].split(",")[0]), int(l[k + 1][1:])
+            if i >= len(specs) or j >= len(specs) or not specs[j].startswith("x") or specs[j] == "x-" or specs[i][0] != "e":
+                return None
+            if h["mode"] == "X" and h["xmlgen"] % 10 == 1:
+                return None
+            if h["mode"] == "W" and POOLS is not None:
+                # WBXML output looks at the text node's PARENT element for one thing: the content of a SyncML MetInf <Type>
+                # (page 1, token 0x13) is rewritten '+xml' -> '+wbxml' (current_text_parent = node->parent); a detached
+                # text node has no parent, so flow mode and the tree legitimately differ there: not comparable
+                row = POOLS.langs[h["lang"]]["tags"][int(specs[i].split(".")[0][1:])]
+                if h["lang"] in (2001, 2101, 2201) and row[1] == 1 and row[2] == 0x13:
+                    return None
+            head = []
+            for t in specs[i].split("."):
+                if t == "(":
+                    break
+                head.append(t)
+            extra.append(".".join(head + ["(", specs[j], ")"]))
+            idx.append(str(len(specs) + len(extra) - 1))
+            used = True
+            k += 3
+        else:
+            return None
+    plain = [x for x in idx if int(x) < len(specs)]
+    if len(set(plain)) != len(plain):
+        return None
+    return "/".join(specs + extra), idx, used
+
+
 def process(ctx, batch, harness, driver, denv, fixed, model_fixed, total, kinds, nontrivial, concrete, corr, samples,
             strict_driver=None, wheaders=None, pools=None):
     lines, owner = [], []            # owner: (history index, kind, payload)
@@ -298,13 +345,21 @@ def process(ctx, batch, harness, driver, denv, fixed, model_fixed, total, kinds,
         dels = [k for k, o in enumerate(h["ops"]) if o == "D" and k > 0]
         if dels:
             cands.append(h["lives"][dels[-1] - 1][0])
+        # ... and right after the first completed bracket  raw start ; text node ; raw end
+        for k, o in enumerate(h["ops"]):
+            lv = h["lives"][k][0]
+            if o[0] == "F" and len(lv) >= 3 and lv[-3][0] == "S" and lv[-2][0] == "N" and lv[-1] == "F" + lv[-3][1:]:
+                cands.append(lv)
+                break
         h["batches"] = []
         for l in cands:
-            idx = [o[1:] for o in l]
-            if l and all(o[0] == "N" for o in l) and len(set(idx)) == len(idx) and l not in h["batches"]:
+            plan = batch_plan(l, h)
+            if l and plan is not None and l not in h["batches"]:
                 h["batches"].append(l)
-                lines.append("batch %d %s %d %s %s" % (h["lang"], h["mode"], h["xmlgen"], h["pool"], ",".join(idx)))
+                lines.append("batch %d %s %d %s %s" % (h["lang"], h["mode"], h["xmlgen"], plan[0], ",".join(plan[1])))
                 owner.append((hi, "batch", l))
+                if plan[2]:
+                    total["bracket_batches"] = total.get("bracket_batches", 0) + 1
     ans, culprits = flowtree_run.run_robust(harness, lines)
     for cu in culprits:
         concrete.append({"kind": "crash-or-sanitizer-report", "input": cu["input"], "rc": cu["rc"], "stderr": cu["stderr"], "note": cu.get("note")})
@@ -411,7 +466,8 @@ def process(ctx, batch, harness, driver, denv, fixed, model_fixed, total, kinds,
                 continue
             total["batch_compared"] += 1
             if f[0] != "0" or len(f) != 3 or f[1] != "1" or f[2] != xb:
-                concrete.append({"kind": "fresh-encoder-vs-batch", "input": "batch %d %s %d %s %s" % (h["lang"], h["mode"], h["xmlgen"], h["pool"], ",".join(o[1:] for o in l)),
+                bp = batch_plan(l, h)
+                concrete.append({"kind": "fresh-encoder-vs-batch", "input": "batch %d %s %d %s %s" % (h["lang"], h["mode"], h["xmlgen"], bp[0], ",".join(bp[1])),
                                  "history": h["line"], "batch": a, "fresh_body": xb,
                                  "what": "the batch encoding of the remaining nodes differs from the flow encoding of the same nodes by a fresh encoder"})
                 break
